@@ -220,8 +220,9 @@ PROPS["C05"] = dict(
 PROPS["C08"] = dict(
     title="In-cluster snapshots are faithful, point-in-time and installed atomically",
     design_ref="DESIGN.md section 7 (C08)",
-    run_files=["Run/C08Run.v"],
-    engines=[dict(cmd=["c08"], corr="Model.Fsm.fsm_steps + Model.Snapshot.{snap_header,recover} <-> fsm.FSM PrepareSnapshot/SaveSnapshot/RecoverFromSnapshot (both formats, across formats)", timeout=1500)],
+    run_files=["Run/C08Run.v", "Run/C04Run.v"],
+    engines=[dict(cmd=["c08"], corr="Model.Fsm.fsm_steps + Model.Snapshot.{snap_header,recover} <-> fsm.FSM PrepareSnapshot/SaveSnapshot/RecoverFromSnapshot (both formats, across formats)", timeout=1500),
+             dict(cmd=["c04", "--installs"], summary="c04", corr="Model.DirProto.{expand HRecover,crash,reopen} <-> RecoverFromSnapshot cut by a crash at every sync operation (strict in-memory file system)", timeout=1500)],
     level_text="Theorems: the receiver ends with exactly the store value pinned at prepare time for every pair of formats, whatever the saver applies while saving and whatever the receiver held; header round trip and dispatch; an install cut by a crash at ANY primitive step (any survival oracle) reopens with the whole snapshot or with what the old DB held (Model/DirProto.v); an install given up on the stop signal or a broken stream leaves the live DB, all contents and 'current' untouched and the state good; reader specification (old state or clean failure, new state after the install). Real replicas: random histories, writes between prepare and save and during save (one batch per Write call), all four format pairs, receivers with other content, close+reopen of the receiver; stop signal / stream failure at every byte offset of small streams (sampled for large ones); readers across an install (lazy sequences, half-consumed multi-chunk sequences, lookups). The receiver's content and indices are compared with the model's state after exactly the batches applied before prepare.",
     level_note="PARTIAL: the snapshot body (SST files / tar of a checkpoint) is Pebble's and the tar library's data and is not modelled byte by byte - faithfulness of the body is the differential run against the state-machine model (content, applied index, leader index), the theorem covers regatta's part (value pinned at prepare, header dispatch, whole replacement). The reader clause is a specification only: the implementation violates it (two open findings, KNOWN_FINDINGS.json: lazy sequences consumed after an install panic; streaming reads across an install crash inside Pebble and hang); plain lookups racing inside the window between loading the DB pointer and opening the iterator cannot be scheduled without a hook and are not exercised. Crash atomicity rests on the Pebble assumptions of C04.",
     technique="Coq proof (install all-or-nothing from the directory-protocol invariant at every primitive step; value semantics of the pinned snapshot; header dispatch) + differential run of real replicas of both formats against the state-machine model, with exhaustive byte-offset interruption",
